@@ -37,10 +37,10 @@ def coveredRanges : List (RangeSite × Cover) := [
   ({ pkg := "app", fn := "SifchainApp.ModuleAccountAddrs", operand := "maccPerms", key := "string", val := "[]string",
      calls := ["authtypes.NewModuleAddress().String", "authtypes.NewModuleAddress"], exits := [], next := "return modAccAddrs" },
    .noState "builds the blocked-address map (insertion order irrelevant)"),
-  -- after repair F15 the epoch payout loop runs over the SORTED assets; the map is only ranged to collect its keys
+  -- after repair F20 the epoch payout loop runs over the SORTED assets; the map is only ranged to collect its keys
   ({ pkg := "x/clp/keeper", fn := "Keeper.AfterEpochEnd", operand := "rewardsEligibleLps", key := "types.Asset", val := "[]*types.LiquidityProvider",
      calls := ["append"], exits := [], next := "sort.Slice(assets, func(i, j int) bool { return assets[i].Symbol < assets[j].Symbol })" },
-   .noState "collects the map keys; the very next statement sorts them by symbol and the payout loop ranges over the sorted slice (repair F15; before it: epoch_assets_perm + its counterexample)"),
+   .noState "collects the map keys; the very next statement sorts them by symbol and the payout loop ranges over the sorted slice (repair F20; before it: epoch_assets_perm + its counterexample)"),
   ({ pkg := "x/clp/keeper", fn := "Keeper.DistributeDepthRewards", operand := "poolRowanMap", key := "*types.Pool", val := "types.Uint",
      calls := ["poolRowanMapSum.Add"], exits := [],
      next := "if !coinsToMint.Equal(poolRowanMapSum) { k.Logger(ctx).Info(fmt.Sprintln(\"coinsToMint\", coinsToMint.String(), \" != poolR" },
@@ -51,10 +51,10 @@ def coveredRanges : List (RangeSite × Cover) := [
   ({ pkg := "x/clp/keeper", fn := "Keeper.TransferProviderDistribution", operand := "poolRowanMap", key := "*types.Pool", val := "types.Uint",
      calls := ["k.RemoveRowanFromPool"], exits := [], next := "" },
    .thm "lppd_poolUpdate_perm"),
-  -- after repair F15 the payout loop runs over the SORTED addresses; the map is only ranged to collect its keys
+  -- after repair F20 the payout loop runs over the SORTED addresses; the map is only ranged to collect its keys
   ({ pkg := "x/clp/keeper", fn := "Keeper.TransferProviderDistributionGeneric", operand := "lpRowanMap", key := "string", val := "types.Uint",
      calls := ["append"], exits := [], next := "sort.Strings(lpAddresses)" },
-   .noState "collects the map keys; the very next statement sorts them and the payout loop ranges over the sorted slice (repair F15; before it: transfer_perm + its counterexample)"),
+   .noState "collects the map keys; the very next statement sorts them and the payout loop ranges over the sorted slice (repair F20; before it: transfer_perm + its counterexample)"),
   ({ pkg := "x/clp/keeper", fn := "PoolRowanMapToLPPools", operand := "poolRowanMap", key := "*types.Pool", val := "types.Uint",
      calls := ["append"], exits := [], next := "return arr" },
    .noState "slice in map order, used only for the `amounts` attribute of the rewards event (events are not part of the app hash nor of the compared DeliverTx fields)"),
